@@ -102,6 +102,20 @@ example : Render.arg 0 (Arg.bin .sub (.bin .sub (.const 1) (.const 2)) (.const 3
     Render.arg 0 (Arg.bin .sub (.const 1) (.bin .sub (.const 2) (.const 3))) =
       [.num 1, .minus, .lparen, .num 2, .minus, .num 3, .rparen] := ⟨rfl, rfl⟩
 
+/-- redundant parentheses: `((1) - 2) - (3)` is a parenthesisation of `1 - 2 - 3` -/
+example : (PArg.bin .sub (.paren (.bin .sub (.paren (.const 1)) (.const 2))) (.paren (.const 3))).erase =
+      Arg.bin .sub (.bin .sub (.const 1) (.const 2)) (.const 3) ∧
+    Render.parg 0 (PArg.bin .sub (.paren (.bin .sub (.paren (.const 1)) (.const 2))) (.paren (.const 3))) =
+      [.lparen, .lparen, .num 1, .rparen, .minus, .num 2, .rparen, .minus, .lparen, .num 3, .rparen] := ⟨rfl, rfl⟩
+
+/-- a program of a label, a directive and an instruction satisfies the hypotheses of `program_roundtrip` -/
+example : ∀ x ∈ [((ElemVal.label [108]), (⟨1, 1, .ident [108]⟩ : Token), [(⟨1, 2, .labelMark⟩ : Token)]),
+      (.directive [100] (.cons (.const 1) (.cons (.const 2) .nil)), ⟨2, 1, .dirMark⟩,
+        [⟨2, 2, .ident [100]⟩, ⟨2, 4, .num 1⟩, ⟨2, 5, .sep⟩, ⟨2, 6, .num 2⟩, ⟨2, 7, .term⟩]),
+      (.instruction [78] .nil, ⟨3, 1, .ident [78]⟩, [⟨3, 2, .term⟩])],
+    x.1.wf ∧ (x.2.1 :: x.2.2).map (·.val) = Render.elemVal x.1 := by
+  simp [ElemVal.wf, Args.wf, Arg.wf, i64Max, Render.elemVal, Render.args, Render.arg]
+
 /-- the model really computes: `1 - 2 * 3 ;` -/
 example : binary ⟨[], none, 1, 1⟩ .bitOr (1, 1)
       [⟨1, 1, .num 1⟩, ⟨1, 2, .minus⟩, ⟨1, 3, .num 2⟩, ⟨1, 4, .mul⟩, ⟨1, 5, .num 3⟩, ⟨1, 6, .term⟩] =
